@@ -20,7 +20,7 @@ structure Sub where
   conn : Nat
   pat : Bool
   name : Bytes
-deriving BEq, DecidableEq, Repr
+deriving DecidableEq, Repr
 
 abbrev Subs := List Sub
 
@@ -177,7 +177,7 @@ structure Pub where
   publisher : Nat
   channel : Bytes
   payload : Bytes
-deriving BEq, Repr
+deriving DecidableEq, Repr
 
 structure BlockSpec where
   σ : Subs
